@@ -218,7 +218,7 @@ class World(object):
         s["BasicStatement.store_exception_context"] = self.store_exc
 
     def store_exc(self, it, st, args, kw, node):
-        o = st.obj(args[0])
+        o = st.wobj(args[0])
         o.fields["exception"] = args[1]
         o.fields["exc_traceback"] = Top("traceback", True)
         return [(st, "val", None)]
@@ -274,7 +274,7 @@ class World(object):
                         sb.ghost["aborted"] = True
                         it.emit(sb, ("abort",))
                     elif isinstance(tgt, Ref):
-                        sb.obj(tgt).fields["hook_failed"] = True
+                        sb.wobj(tgt).fields["hook_failed"] = True
                     outs.append((sb, "val", None))
                     # (c) raises non-Exception BaseException: escapes run_hook
                     if s2.ghost.get("hooks_may_raise_base"):
@@ -304,9 +304,9 @@ class World(object):
         if step is not None:
             sk = st.fork()
             sk.note("%s: step function calls scenario.skip() and returns" % it.loc(node))
-            sk.obj(Ref(step)).fields["status"] = S("skipped")
+            sk.wobj(Ref(step)).fields["status"] = S("skipped")
             if cur is not None:
-                sk.obj(Ref(cur)).fields["should_skip"] = True
+                sk.wobj(Ref(cur)).fields["should_skip"] = True
             it.emit(sk, ("stepfunc", "skip-scenario"))
             outs.append((sk, "val", None))
         for exc in USER_EXC:
